@@ -359,35 +359,10 @@ class Compiler:
                 # Found inner function - check what variables it uses
                 inner_captured = self._find_free_vars_in_function(node, locals_set)
                 captured.update(inner_captured)
-            elif isinstance(node, BlockStatement):
-                for stmt in node.body:
-                    visit(stmt)
-            elif isinstance(node, IfStatement):
-                visit(node.consequent)
-                if node.alternate:
-                    visit(node.alternate)
-            elif isinstance(node, WhileStatement):
-                visit(node.body)
-            elif isinstance(node, DoWhileStatement):
-                visit(node.body)
-            elif isinstance(node, ForStatement):
-                visit(node.body)
-            elif isinstance(node, ForInStatement):
-                visit(node.body)
-            elif isinstance(node, TryStatement):
-                visit(node.block)
-                if node.handler:
-                    visit(node.handler.body)
-                if node.finalizer:
-                    visit(node.finalizer)
-            elif isinstance(node, SwitchStatement):
-                for case in node.cases:
-                    for stmt in case.consequent:
-                        visit(stmt)
-            elif isinstance(node, LabeledStatement):
-                visit(node.body)
             elif hasattr(node, "__dict__"):
-                # For expression nodes (e.g., arrow function expression body)
+                # Every child counts, statements and expressions alike: a closure
+                # may be created in a loop test, a switch discriminant, a for
+                # header or a return operand just as well as in a body
                 for value in node.__dict__.values():
                     if isinstance(value, Node):
                         visit(value)
